@@ -29,7 +29,8 @@ SPEC = {
     'required_counters': ['cli_runs', 'explain_merchant_checks', 'discover_checks', 'description_probe_checks', 'legacy_csv_description_probes', 'discover_text_header_checks',
                           'budgets_with_merchant_fed_by_several_rules'],
     'assumptions': ['description probes use rule files free of date / source / field conditions (explain cannot be given those)',
-                    'discover totals are compared only when every Unknown transaction is positive (discover sums absolute values, up nets them)'],
+                    'discover totals are compared per Unknown description with the signed sum tally up reports; the gross-vs-net difference for descriptions '
+                    'with refunds is a recorded finding'],
 }
 
 PROBE_CONDS = ['contains("%s")', 'regex("%s")', 'not contains("%s")', '"%s" in description', 'is_probe', 'startswith("%s") or amount > 500', 'is_large',
@@ -69,8 +70,8 @@ def probe_rulefile(rnd):
     return rf
 
 
-def up_json(root, cfg):
-    p = B.tally(root, 'up', cfg, '--format', 'json', '-v')
+def up_json(root, cfg, migrate=False):
+    p = B.tally(root, 'up', cfg, '--format', 'json', '-v', *(['--migrate'] if migrate else []))
     return p, (B.json_from_stdout(p.stdout) if p.returncode == 0 else None)
 
 
@@ -125,7 +126,17 @@ def judge(rec, rnd, tmp, k):
     cfg = B.write_budget(b, root)
     case = {'kind': 'budget', 'settings': B.settings_dict(b), 'rules': R.render(b['rf']) if b['rules_kind'] == 'rules' else R.render_csv(b['csv_rules'])}
     rec.case()
-    pu, U = up_json(root, cfg)
+    # a legacy-CSV budget may be migrated by this very run (up --migrate): what it reports is what explain / discover say right afterwards
+    migrating = b['rules_kind'] == 'csv' and rnd.random() < .5
+    if migrating:
+        b['rule_mode'] = rnd.choice(['most_specific', 'most_specific', 'first_match'])
+        # a general row listed before a more specific one: the configured rule mode decides which of them wins after the migration
+        w = rnd.choice(['S0', 'S1', 'NETFLIX', 'COSTCO'])
+        b['csv_rules'] = [R.CsvRule(w, [], 'General %s' % w, 'Transport', 'Ride', []),
+                          R.CsvRule(w + '.*', [('amount', '>', '0')], 'Specific %s' % w, 'Food', 'Delivery', ['spec'])] + list(b['csv_rules'])
+        cfg = B.write_budget(b, root)
+        rec.count('budgets_migrated_by_the_up_run')
+    pu, U = up_json(root, cfg, migrate=migrating)
     rec.count('cli_runs')
     if U is None:
         shutil.rmtree(root, ignore_errors=True)
@@ -207,10 +218,7 @@ def judge(rec, rnd, tmp, k):
                 key = 'supplemental-data-not-passed'
             rec.violation(key, f'discover lists {dict(unknown_d)} ; up leaves Unknown {dict(unknown_u)} (only in discover: {extra}; only in up: {miss})', case)
         else:
-            pos = all(e['raw_amount'] > 0 for e in exp_rows if e['triple'] is None) if exp_rows else False
-            tot_u = sum(e['raw_amount'] for e in exp_rows if e['triple'] is None) if exp_rows else tot_u
-            if pos and D and not math.isclose(sum(x['total_spend'] for x in D), tot_u, abs_tol=0.02 * max(1, len(D))):
-                rec.violation('discover-total-differs', f'discover {sum(x["total_spend"] for x in D)} vs up {tot_u}', case)
+            judge_discover_totals(rec, D, exp_rows, case)
     shutil.rmtree(root, ignore_errors=True)
 
 
@@ -310,6 +318,57 @@ def judge_discover_text(rec, rnd, tmp, k):
         shutil.rmtree(root, ignore_errors=True)
 
 
+def judge_discover_totals(rec, D, exp_rows, case):
+    """Per Unknown description: discover's total against the total `tally up` reports for those transactions (their signed sum)."""
+    if not exp_rows or not D:
+        return
+    by_desc = {}
+    for e in exp_rows:
+        if e['triple'] is None:
+            by_desc.setdefault(e['desc'], []).append(e['raw_amount'])
+    for x in D:
+        amts = by_desc.get(x['raw_description'])
+        if not amts:
+            continue
+        rec.count('discover_per_description_total_checks')
+        net, gross = sum(amts), sum(abs(a) for a in amts)
+        if math.isclose(x['total_spend'], net, abs_tol=0.011):
+            continue
+        if (min(amts) < 0) and math.isclose(x['total_spend'], gross, abs_tol=0.011):
+            # recorded finding: discover adds up absolute values, up nets charges and refunds
+            rec.violation('discover-total-is-gross-not-net', f'unknown description {x["raw_description"]!r} with amounts {amts}: discover total {x["total_spend"]}, '
+                          f'tally up reports {round(net, 2)} for the same transactions', {'kind': 'gross-net-witness'})
+        else:
+            rec.violation('discover-total-differs', f'unknown description {x["raw_description"]!r} with amounts {amts}: discover total {x["total_spend"]}, tally up {round(net, 2)}', case)
+        return
+
+
+def gross_net_witness(rec, tmp):
+    """Witness of the recorded finding discover-total-is-gross-not-net: one unknown shop, a purchase and a refund."""
+    root = os.path.join(tmp, 'gn')
+    shutil.rmtree(root, ignore_errors=True)
+    os.makedirs(os.path.join(root, 'config'))
+    os.makedirs(os.path.join(root, 'data'))
+    with open(os.path.join(root, 'config', 'settings.yaml'), 'w') as f:
+        f.write('year: 2025\nmerchants_file: config/merchants.rules\ndata_sources:\n  - name: Main\n    file: data/main.csv\n    format: "{date:%Y-%m-%d},{description},{amount}"\n')
+    with open(os.path.join(root, 'config', 'merchants.rules'), 'w') as f:
+        f.write('[Netflix]\nmatch: contains("NETFLIX")\ncategory: Subs\n')
+    with open(os.path.join(root, 'data', 'main.csv'), 'w') as f:
+        f.write('Date,Description,Amount\n2025-01-05,CORNER SHOP 12,80.00\n2025-01-09,CORNER SHOP 12,-30.00\n2025-01-11,NETFLIX.COM,9.99\n')
+    pu, U = up_json(root, os.path.join(root, 'config'))
+    pd = B.tally(root, 'discover', os.path.join(root, 'config'), '--format', 'json', '-n', '0')
+    rec.count('cli_runs', 2)
+    try:
+        D = json.loads(pd.stdout[pd.stdout.index('['):])
+        up_total = [m['total'] for m in U['merchants'] if m['category'] == 'Unknown'][0]
+        if not math.isclose(D[0]['total_spend'], up_total, abs_tol=0.011):
+            rec.violation('discover-total-is-gross-not-net', f"unknown description 'CORNER SHOP 12' with amounts [80.0, -30.0]: discover total {D[0]['total_spend']}, "
+                          f'tally up reports {up_total}', {'kind': 'gross-net-witness'})
+    except Exception:
+        pass
+    shutil.rmtree(root, ignore_errors=True)
+
+
 def judge_probe(rec, rnd, tmp, k):
     rf = probe_rulefile(rnd)
     mode = rnd.choice(['first_match', 'first_match', 'most_specific'])
@@ -386,6 +445,9 @@ def replay(rec, case):
     rnd = core.rng_for('C16', 'replay')
     tmp = tempfile.mkdtemp(prefix='vt-c16-')
     try:
+        if case.get('kind') == 'gross-net-witness':
+            gross_net_witness(rec, tmp)
+            return
         for k in range(10):
             judge(rec, rnd, tmp, k)
             for j in range(3):
